@@ -205,7 +205,7 @@ Example C20_ex_guards :
                          [NAction [CArgs (AField ["Result"; "Maxlag"; "Start"; "Offset"]) []]] []] in
   typecheck burrow_schema guarded_if burrow_facts = true /\
   typecheck burrow_schema guarded_with burrow_facts = true /\
-  json_skeleton_ok burrow_schema burrow_facts ([NText "{""t"":"""] ++ guarded_with ++ [NText """}"]) = true /\
+  json_skeleton_ok burrow_schema burrow_facts ([NText "{""t"":"""] ++ guarded_with ++ [NText """}"])%list = true /\
   typecheck burrow_schema wrong_guard burrow_facts = false /\
   match Eval.eval_group [] F32.f32_zero 0 3, Eval.eval_group [(1%Z, [ex_nocommit])] F32.f32_zero 0 3 with
   | Eval.Ok g0, Eval.Ok g1 =>
